@@ -4,6 +4,7 @@ import Spok.Lemmas.RT.Assign
 import Spok.Lemmas.RT.Task
 import Spok.Lemmas.RT.Format
 import Spok.Judge.Syntax
+import Spok.Lemmas.Utf8Enc
 /-! # Property C06 — parsing recovers exactly the structure written, in every admissible layout
 
 `Doc t txt` (`Syntax/Render.lean`) says that `txt` is the tree `t` written out in some layout the
@@ -37,6 +38,19 @@ theorem judge_accepts_model (t : Tree) (bytes : List UInt8) (h : Doc t (decodeAl
 /-- the three lexing specifications the assembly rests on, exported for the axiom audit -/
 theorem lexing_specs : LexStmtSpec Node.isComment ∧ LexStmtSpec Node.isAssign ∧ LexStmtSpec Node.isTask ∧ LexParenSpec :=
   ⟨lexStmt_comment, lexStmt_assign, lexStmt_task lexParen_spec, lexParen_spec⟩
+
+/-- **Non-ASCII text reaches the lexer as written.**  A file that is well-formed UTF-8 — the encodings (`utf8.EncodeRune`)
+    of Unicode scalar values, in any number and order — is decoded by the lexer's `utf8.DecodeRune` loop to exactly those
+    code points, none flagged invalid: C06's "non-ASCII letters in names and strings" is about the characters the user
+    wrote, not about an artefact of the decoder. -/
+theorem C06_utf8_text (cps : List Nat) (h : ∀ cp ∈ cps, Spok.Json.isScalar cp) :
+    (decodeAll (cps.flatMap Spok.Json.utf8enc)).map (·.cp) = cps ∧
+    ∀ r ∈ decodeAll (cps.flatMap Spok.Json.utf8enc), r.invalid = false :=
+  Spok.Json.decodeAll_utf8 cps h
+
+/-- … and a validly decoded rune re-encodes to the bytes it came from -/
+theorem C06_utf8_reencode (b0 : UInt8) (rest : List UInt8) (h : (decode1 b0 rest).invalid = false) :
+    Spok.Json.utf8enc (decode1 b0 rest).cp = (decode1 b0 rest).bytes := Spok.Json.utf8enc_decode1 b0 rest h
 
 /-! ## non-vacuity: the formatter's output for a tree with every kind of statement is an admissible
 layout (so `Doc` is inhabited by non-trivial texts), and the theorem applies to it -/
